@@ -14,7 +14,7 @@ m = re.search(r"RESULT (.*)", log)
 meta = {
     "property": pid, "breaks": sorted({e[0] for e in exp}), "origin": "independent sub-agent given only the property text and a scratch worktree",
     "needs_to_manifest": needs,
-    "confirmed_by_me": {"command": "analysis/confirm_seed.sh " + src + "  (scratch worktree /tmp/confirmwt at /repo HEAD: apply patch, full suite; apply demo, run demo; revert patch, run demo)" % pid, "result": m.group(1) if m else "?"},
+    "confirmed_by_me": {"command": "analysis/confirm_seed.sh " + src + "  (scratch worktree /tmp/confirmwt at /repo HEAD: apply patch, full suite; apply demo, run demo; revert patch, run demo)", "result": m.group(1) if m else "?"},
     "detection": initially,
     "expect": [{"property": p, "rule": r, "key": k} for p, r, k in exp],
 }
